@@ -195,7 +195,17 @@ def run_impl(ts, priors, mu, eps, space, std_in=True, cache=False, std_out=False
     roots = [(int(r), float(s / bp.spans[r])) for r, s in bp.root_spans.items()]
     order = [(int(e.id), int(e.parent), int(e.child)) for e in bp.edges_by_child_desc(grouped=False)]
     nonfixed = sorted(int(u) for u in priors.nonfixed_nodes)
+    # post-processing of core.InsideOutsideMethod.run on a copy of the posterior grid
+    from tsdate.core import DiscreteTimeMethod
+    pg = bp.posterior_grid.clone_with_new_data(grid_data=bp.posterior_grid.grid_data.copy(), fixed_data=np.nan)
+    with np.errstate(all="ignore"):
+        pg.standardize()
+        pg.force_probability_space(LIN)
+        pg.to_probabilities()
+        mn, va = DiscreteTimeMethod.mean_var(ts, pg)
     out = dict(
+        probs={u: np.array(pg[u], dtype=float) for u in nonfixed},
+        mean={u: float(mn[u]) for u in nonfixed}, var={u: float(va[u]) for u in nonfixed},
         G=G, n=ts.num_nodes, fixed=[u in fixed for u in range(ts.num_nodes)],
         edges=[(int(e.id), int(e.parent), int(e.child)) for e in ts.edges()], order=order,
         frac=frac, lik=tables, prior={u: np.array(bp.priors[u], dtype=float) for u in nonfixed},
@@ -227,6 +237,7 @@ def encode(cid, r, carrier):
         lines.append(f"prior {u} " + " ".join(enc(x) for x in row))
     lines.append("roots " + " ".join(f"{u} {enc(x)}" for u, x in r["roots"]))
     lines.append("opts " + " ".join("1" if b else "0" for b in r["opts"]))
+    lines.append("times " + " ".join(enc(x) for x in r["timepoints"]))
     lines.append("end")
     return "\n".join(lines) + "\n"
 
@@ -238,13 +249,16 @@ def decode(line, r, carrier):
     dec = h2f if carrier == "float" else q2frac
     vals = [dec(x) for x in parts[1:]]
     G = r["G"]
-    out = dict(marg=vals[0], denom={}, inside={}, outside={})
+    out = dict(marg=vals[0], denom={}, inside={}, outside={}, probs={}, mean={}, var={})
     k = 1
     for u in r["nonfixed"]:
         out["denom"][u] = vals[k]
         out["inside"][u] = vals[k + 1:k + 1 + G]
         out["outside"][u] = vals[k + 1 + G:k + 1 + 2 * G]
-        k += 1 + 2 * G
+        out["probs"][u] = vals[k + 1 + 2 * G:k + 1 + 3 * G]
+        out["mean"][u] = vals[k + 1 + 3 * G]
+        out["var"][u] = vals[k + 2 + 3 * G]
+        k += 3 + 3 * G
     if k != len(vals):
         raise common.LeanError(f"driver reply has {len(vals)} values, expected {k}")
     return out
@@ -290,6 +304,16 @@ def compare(r, m, rtol=1e-9):
         for i in range(r["G"]):
             chk("inside", u, i, r["inside"][u][i], m["inside"][u][i])
             chk("outside", u, i, r["outside"][u][i], m["outside"][u][i])
+    # post-processing (always linear-space numbers)
+    for u in r["nonfixed"]:
+        for i in range(r["G"]):
+            if not close(r["probs"][u][i], m["probs"][u][i], rtol=rtol, atol=1e-300):
+                bad.append(("posterior_probability", u, i, float(r["probs"][u][i]), float(m["probs"][u][i])))
+        tscale = max(1.0, float(np.max(np.abs(r["timepoints"]))))
+        if not close(r["mean"][u], m["mean"][u], rtol=rtol, atol=rtol * tscale):
+            bad.append(("posterior_mean", u, 0, float(r["mean"][u]), float(m["mean"][u])))
+        if not close(r["var"][u], m["var"][u], rtol=1e-7, atol=1e-7 * tscale * tscale):
+            bad.append(("posterior_variance", u, 0, float(r["var"][u]), float(m["var"][u])))
     return bad
 
 
